@@ -420,7 +420,8 @@ func RunCheck(verifDir, repoDir, prop, tier string, seed int, overlay map[string
 	}
 	mutKilled, mutSurvived := []string{}, []string{}
 	if tier == "thorough" && len(cr.Violations) == 0 && !relock && len(overlay) == 0 {
-		mutKilled, mutSurvived = runMutants(verifDir, repoDir, prop, seed)
+		k, sv := runMutants(verifDir, repoDir, prop, seed)
+		mutKilled, mutSurvived = append(mutKilled, k...), append(mutSurvived, sv...)
 		for _, m := range mutSurvived {
 			cr.Notes = append(cr.Notes, "NOTE mutant survived (a hole in the contracts, not a violation of /repo): "+m)
 		}
